@@ -76,6 +76,13 @@ func c14Flags(c *Ctx, pk string, T, PT reflect.Type, leaves []c14Leaf, cs map[st
 	value := func(t reflect.Type) (string, string) {
 		for {
 			txt, w := genEnvValue(r, t)
+			if pk == "std" && t.Kind() == reflect.Float32 && strings.Contains(txt, "3.4028235e+38") {
+				// the shortest text of the largest float32 lies between that value and the rounding midpoint above
+				// it: the standard-library source, which reads every float flag as a float64 and then checks
+				// the range, calls it out of range; pflag, which parses at 32 bits, rounds it.  The property
+				// fixes neither reading (C12 treats it in its own oracle), so the alias stream stays off it
+				continue
+			}
 			if w != "" && !strings.ContainsRune(txt, 0) {
 				return txt, w
 			}
